@@ -71,6 +71,14 @@ Proof.
   - destruct Hpos as [(z & Hz & <-) _]. rewrite Hy in Hz. inversion Hz. reflexivity.
 Qed.
 
+Lemma no_reorg' : forall p ln lh ps segs f,
+  W c BPg p -> pos_of c HPg HDg p ln lh -> Gg (RGet ps) (RSegs segs) -> In f (concat (map seg_blocks segs)) ->
+  b_num f = ln + 1 -> b_parent f <> 0 -> lh <> b_parent f -> RJg p.
+Proof.
+  intros p ln lh ps segs f Hw Hpos Hg Hin. apply (no_reorg p ln lh f Hw Hpos).
+  pose proof (Gg_bp ps segs Hg) as Hb. rewrite Forall_forall in Hb. apply Hb. exact Hin.
+Qed.
+
 Lemma unw_false : forall g p, unw RJg g p -> p = g.
 Proof. intros g p H. induction H as [|p b _ _ F]; [reflexivity|destruct F]. Qed.
 
@@ -98,7 +106,7 @@ Lemma growth_all :
   Forall (fun e => TaskInvG c canon (snd e)) (r_trace (step c s d))
   /\ TaskInvG c canon (r_db (step c s d)).
 Proof.
-  destruct (step_all c Gg (fun _ => True) True BPg HPg HDg RJg Hc Gg_ok Gg_bp Gg_hp Gg_hd (fun _ _ => I) no_reorg g d s Hpv
+  destruct (step_all c Gg (fun _ => True) True BPg HPg HDg RJg Hc Gg_ok Gg_bp Gg_hp Gg_hd (fun _ _ => I) no_reorg' g d s Hpv
                      (conj Hw Hon) (Forall_True s) Ht) as (A & B & _).
   assert (K : forall x, Inv c True BPg HPg HDg RJg g (outside c d) d x -> TaskInvG c canon x).
   { intros x (_ & [(p & _ & [Hwp Hbp] & E)|(p & bs & _ & _ & [Hwp Hbp] & E)] & _);
@@ -115,11 +123,11 @@ Lemma growth_converged : r_out (step c s d) = Fin OConverged ->
     /\ outside c (r_db (step c s d)) = outside c d.
 Proof.
   intros Ho.
-  destruct (step_converged c Gg (fun _ => True) True BPg HPg HDg RJg Hc Gg_ok Gg_bp Gg_hp Gg_hd (fun _ _ => I) no_reorg g d s Hpv
+  destruct (step_converged c Gg (fun _ => True) True BPg HPg HDg RJg Hc Gg_ok Gg_bp Gg_hp Gg_hd (fun _ _ => I) no_reorg' g d s Hpv
                            (conj Hw Hon) (Forall_True s) Ht Ho)
     as (p & q & bs & ln & lh & Eg & Hu & Hp & [Hwf Hbf] & Hpos & Hn & Hne & Hlen & _).
   apply unw_false in Hu. subst p.
-  destruct (step_all c Gg (fun _ => True) True BPg HPg HDg RJg Hc Gg_ok Gg_bp Gg_hp Gg_hd (fun _ _ => I) no_reorg g d s Hpv
+  destruct (step_all c Gg (fun _ => True) True BPg HPg HDg RJg Hc Gg_ok Gg_bp Gg_hp Gg_hd (fun _ _ => I) no_reorg' g d s Hpv
                      (conj Hw Hon) (Forall_True s) Ht) as (_ & (Ho' & _) & _).
   rewrite concat_snoc in Hbf. apply Forall_app in Hbf. destruct Hbf as [_ Hbs].
   destruct (on_chain_run hs canon _ _ _ Hbs Hn) as [A B].
@@ -135,7 +143,7 @@ Lemma growth_not_converged : forall o,
   r_out (step c s d) = Fin o -> o <> OConverged -> pv c (r_db (step c s d)) = pv c d.
 Proof.
   intros o Hnda Ho Hne.
-  destruct (step_not_converged c Gg (fun _ => True) True BPg HPg HDg RJg Hc Gg_ok Gg_bp Gg_hp Gg_hd (fun _ _ => I) no_reorg g d s Hpv
+  destruct (step_not_converged c Gg (fun _ => True) True BPg HPg HDg RJg Hc Gg_ok Gg_bp Gg_hp Gg_hd (fun _ _ => I) no_reorg' g d s Hpv
                                (conj Hw Hon) (Forall_True s) Ht o Hnda Ho Hne) as (p & q & _ & Hu & Hp).
   apply unw_false in Hu. subst p. rewrite Hp, Hpv. reflexivity.
 Qed.
